@@ -371,6 +371,17 @@ DynGraphs == {
            St1(2, <<"o2">>, <<"s2">>, <<>>),
            [St1(3, <<"o3">>, <<"s1">>, <<"dd", "o2">>) EXCEPT !.dd = "dd", !.ddi = <<"o2">>] >>),
   Graph(<< [St1(1, <<"o1">>, <<"s1">>, <<"dd", "s2">>) EXCEPT !.dd = "dd", !.ddi = <<"s2">>] >>),
+  \* the producer of the discovered input is first reached through the dyndep file and has a validation of its own
+  \* (a statement that is ready at once / that has to wait for an input of its own)
+  Graph(<< [St1(1, <<"dd">>, <<"s1">>, <<>>) EXCEPT !.mkdd = "dd"],
+           [St1(2, <<"o2">>, <<"s2">>, <<"dd">>) EXCEPT !.dd = "dd", !.ddi = <<"o3">>],
+           [St1(3, <<"o3">>, <<"s1">>, <<>>) EXCEPT !.val = <<"o4">>],
+           St1(4, <<"o4">>, <<"s2">>, <<>>) >>),
+  Graph(<< [St1(1, <<"dd">>, <<"s1">>, <<>>) EXCEPT !.mkdd = "dd"],
+           [St1(2, <<"o2">>, <<"s2">>, <<"dd">>) EXCEPT !.dd = "dd", !.ddi = <<"o3">>],
+           [St1(3, <<"o3">>, <<"s1">>, <<>>) EXCEPT !.val = <<"o5">>],
+           St1(4, <<"o4">>, <<"s2">>, <<>>),
+           St1(5, <<"o5">>, <<"o4">>, <<>>) >>),
   \* dyndep file as implicit input, discovered output and input at once, consumer chain
   Graph(<< [St1(1, <<"dd">>, <<"s1">>, <<>>) EXCEPT !.mkdd = "dd"],
            [St1(2, <<"o2">>, <<"s2">>, <<"dd">>) EXCEPT !.dd = "dd", !.ddi = <<"s1">>, !.ddo = <<"x2">>],
@@ -384,6 +395,11 @@ DynDeep ==
            St1(2, <<"st">>, <<"s1">>, <<>>),
            St1(3, <<"g">>, <<"s2">>, <<"st">>),
            [St1(4, <<"out">>, <<"s2">>, <<"dd">>) EXCEPT !.dd = "dd", !.ddi = <<"g">>] >>)
+\* dyndep graphs whose statements sit in pools, every declared output asked for: a statement that waits in a pool (or in the
+\* ready queue) when a dyndep file loaded during the build names its output as a discovered input (C06: runs at most once)
+FamPoolsDyn(K, CH) ==
+  UNION { {Scn(WithPools(gr, pa), <<BX(SetToSeq(AllOutsG(gr)), j, 1, [fail |-> <<>>]), Build(SetToSeq(AllOutsG(gr)), 2, 1)>>) :
+              j \in {1, 2, 3}, pa \in RandomSubset(K + 1, [1..Len(gr.stmts) -> {"", "p1", "p2", "console"}])} : gr \in DynGraphs }
 DynVariants(gr) == {gr} \cup {[gr EXCEPT !.stmts = [i \in DOMAIN gr.stmts |-> IF i = k /\ gr.stmts[i].mkdd = "" THEN [gr.stmts[i] EXCEPT !.restat = TRUE] ELSE gr.stmts[i]]] : k \in DOMAIN gr.stmts}
 FamDyn(K, CH) ==
   UNION { {ScnT(gr, <<Build(Roots(gr), j, 1), c, Build(Roots(gr), j, 1), Build(Roots(gr), j, 1)>>, "dyn") : j \in {1, 2, 3}, c \in Pick(CH, Changes(gr))}
@@ -581,7 +597,7 @@ Family(name) ==
     [] name = "cyc" -> FamCyc(ParK, ParCH)
     [] name = "twin" -> FamTwin(ParK, ParCH)
     [] name = "dyn" -> FamDyn(ParK, ParCH)
-    [] name = "pools" -> FamPools(ParK, ParCH)
+    [] name = "pools" -> FamPools(ParK, ParCH) \cup FamPoolsDyn(ParK, ParCH)
     [] name = "jobs" -> FamJobs(ParK, ParCH)
     [] name = "intr" -> FamIntr(ParK, ParCH)
     [] name = "crash" -> FamCrash(ParK, ParCH)
